@@ -737,11 +737,21 @@ def check(case):
                     f.write(raws[g])
             return True
 
+        fobjs = {}
+
         def open_and_list(g):
             if case["open"] == "filename":
                 ar = ArFile(filename=path)
             else:
-                f = io.BytesIO(before + raws[g])
+                # a further reader of the archive under test gets a file object of its own or - in
+                # the histories with an even number of operations - the very file object the first
+                # reader (and its live members) use, put back on the global header
+                if g in fobjs and len(case["ops"]) % 2 == 0:
+                    f = fobjs[g]
+                    labels.add("reopen:second-reader-on-the-same-file-object")
+                else:
+                    f = io.BytesIO(before + raws[g])
+                    fobjs.setdefault(g, f)
                 f.seek(len(before))             # on the global header of the archive under test
                 ar = ArFile(fileobj=f)
             ars.append(ar)
